@@ -194,6 +194,12 @@ def run_calls(case):
 
         client = MCPClient(FakeTransport())
         restore = H._debug_logging() if case.get("debug") else None
+        warn_ctx = None
+        if case.get("warnErr"):
+            import warnings
+            warn_ctx = warnings.catch_warnings()
+            warn_ctx.__enter__()
+            warnings.simplefilter("error")
         try:
             for spec in case["calls"]:
                 rec = {"start": loop.ticks, "writes": [], "spec": spec}
@@ -243,6 +249,8 @@ def run_calls(case):
         finally:
             if restore is not None:
                 restore()
+            if warn_ctx is not None:
+                warn_ctx.__exit__(None, None, None)
 
     vloop.run(main, tie=case.get("tie", "events"))
     return obs
